@@ -210,6 +210,12 @@ func VerifyDualProof(proof *DualProof, sourceTxID, targetTxID uint64, sourceAlh,
 
 	} else {
 
+		// the source transaction is the last one covered by the target Merkle Tree:
+		// the leaf proven by LastInclusionProof must be the trusted one
+		if sourceTxID == proof.TargetTxHeader.BlTxID && proof.TargetBlTxAlh != sourceAlh {
+			return false
+		}
+
 		verifies := VerifyLinearProof(proof.LinearProof, sourceTxID, targetTxID, sourceAlh, targetAlh)
 		if !verifies {
 			return false
